@@ -36,6 +36,12 @@ GEN_SPEC = {"imports": ["From God Require Import C11.GenEnv."], "items": [
     {"kind": "calls", "file": "lib/store/sqlx/stmt.go", "func": "nilGuard.start", "as": "nilguard_start_skeleton"},
     {"kind": "calls", "file": "lib/store/sqlx/stmt.go", "func": "newGuard", "as": "newguard_skeleton"},
     {"kind": "calls", "file": "lib/store/sqlx/tx.go", "func": "txSession.ExecCtx", "as": "tx_execctx_skeleton"},
+    {"kind": "calls", "file": "lib/store/sqlx/tx.go", "func": "begin", "as": "begin_skeleton"},
+    {"kind": "chain", "file": "lib/store/sqlx/tx.go", "func": "begin", "call": "db.Begin", "as": "begin_args"},
+    {"kind": "chain", "file": "lib/store/sqlx/conn.go", "func": "commonConn.TransactCtx", "call": "transact", "as": "transact_args"},
+    {"kind": "chain", "file": "lib/store/sqlx/tx.go", "func": "transact", "call": "transactOnConn", "as": "transactonconn_args"},
+    {"kind": "chain", "file": "lib/store/sqlx/tx.go", "func": "transactOnConn", "call": "fn", "as": "fn_args"},
+    {"kind": "chain", "file": "lib/store/sqlc/cachedsql.go", "func": "CachedConn.TransactCtx", "call": "cc.db.TransactCtx", "as": "cached_args"},
 ]}
 # (method -> strict literal handed to unmarshalRow(s)) for every receiver, and plain form -> Ctx form
 RECVS = [("conn", "commonConn", "lib/store/sqlx/conn.go"), ("stmt", "statement", "lib/store/sqlx/conn.go"),
@@ -58,7 +64,10 @@ RULE = ("tx: all 8 begin/commit/rollback fail-or-not combinations x all bodies o
         "TransactCtx, sqlc.CachedConn Transact, TransactCtx} and the log switches {all on, DisableStmtLog, DisableLog} x {normal, every "
         "statement slow} at random), plus a sweep of every fault kind at every site (Begin incl. 1/2/3/5 bad-connection attempts, "
         "Commit, Rollback, each statement operation x reaction - statement faults under ALL 6 switch settings, through sqlx and "
-        "through sqlc each; 702 cases), plus random bodies of 3-6 statements, on a recording SQL driver; "
+        "through sqlc each; 702 cases), plus a context sweep (ctx given to TransactCtx live / cancelled or expired right after the "
+        "body's last statement / cancelled or expired before the call x body nil, error, panic x commit ok, failing x body using the "
+        "plain Session methods or the XxxCtx methods on that ctx, through conn.TransactCtx and sqlc.CachedConn.TransactCtx; 180 "
+        "cases), plus random bodies of 3-6 statements, on a recording SQL driver; "
         "orm: random destination shapes (int64/string/sql.NullInt64/plain-struct fields, pointer fields, embedded "
         "structs to depth 2; fully tagged 45% / untagged 25% / MIXED 30%: some top-level fields tagged, tagged outer fields with an "
         "untagged embedded struct, untagged outer fields with a tagged embedded struct; tag options, rare duplicate tags; primitives; "
@@ -104,8 +113,15 @@ def rkind(rng):
     return "gen" if rng.random() < 0.35 else rng.choice(FKINDS[1:])
 
 
+CTXS = ["live", "cancel_after", "expire_after", "cancelled", "expired"]
+
+
 def settings(rng):
-    return {"api": rng.choice(APIS), "log": rng.randrange(3), "slow": rng.random() < 0.5}
+    d = {"api": rng.choice(APIS), "log": rng.randrange(3), "slow": rng.random() < 0.5, "cx": "live", "bound": False}
+    if d["api"].endswith("ctx"):
+        d["cx"] = rng.choice(CTXS + ["live"] * 2)
+        d["bound"] = rng.random() < 0.4
+    return d
 
 
 def begin_fault(rng, fail):
@@ -180,6 +196,27 @@ def tx_sweep(rng):
                 if rng.random() < 0.3:
                     d["rollback"] = rkind(rng)
                 add(d, LOGSETS)
+    return out
+
+
+def tx_ctx_sweep(rng):
+    """bodies x {ctx live, finished right after the last statement, finished before the call} x {body nil / error /
+    panic} x {commit ok / fails} x {plain Session methods, ctx-bound methods}, through conn.TransactCtx and
+    sqlc.CachedConn.TransactCtx"""
+    out = []
+    bodies = [[], [{"op": "exec", "fault": "none", "react": "return", "p": 0}],
+              [{"op": "query", "fault": "none", "react": "return", "p": 0}, {"op": "pexec", "fault": "none", "react": "return", "p": 0}],
+              [{"op": "exec", "fault": "none", "react": "ignore", "p": 0}, {"op": "query", "fault": "none", "react": "panic", "p": 6}]]
+    for cx in CTXS:
+        for fin in FINALS:
+            for commit in ("none", "gen", "canceled"):
+                for bound in (False, True):
+                    stmts = json_copy(rng.choice(bodies) if not (cx in ("cancelled", "expired") and not bound and rng.random() < 0.5)
+                                      else bodies[1])
+                    for api in ("transactctx", "cachedctx"):
+                        out.append({"t": "tx", "begin": {"k": "none", "n": 0}, "commit": commit,
+                                    "rollback": rng.choice(["none", "none", "gen"]), "stmts": json_copy(stmts), "final": dict(fin),
+                                    "api": api, "log": rng.randrange(3), "slow": rng.random() < 0.3, "cx": cx, "bound": bound})
     return out
 
 
@@ -399,6 +436,7 @@ def generate(rng, tier, n):
     if tier != "search":
         cases += tx_exhaustive(rng)
         cases += tx_sweep(rng)
+        cases += tx_ctx_sweep(rng)
         cases += tx_random(rng, 60 if tier == "quick" else 600)
     else:
         cases += tx_random(rng, 40)
@@ -475,6 +513,7 @@ def search(rng, problems):
                 d.update(settings(rng))
                 out.append(d)
     out += tx_sweep(rng)
+    out += tx_ctx_sweep(rng)
     out += boundary_orm()
     return via_all(rng, out)
 
@@ -584,6 +623,10 @@ def switches_term(c):
     return "(mkswitches %s %s %s)" % (cbool(log == 0), cbool(log != 2), cbool(c.get("slow", False)))
 
 
+CTX_TERM = {"live": "CLive", "": "CLive", "cancel_after": "(CDoneAfterBody KCanceled)", "expire_after": "(CDoneAfterBody KDeadline)",
+            "cancelled": "(CDoneBefore KCanceled)", "expired": "(CDoneBefore KDeadline)"}
+
+
 def encode_tx(c, o):
     stmts = clist(["mkstmt %s %s %s" % (SOP[s.get("op", "exec")], fault_term(s["fault"]), react_term(s)) for s in c["stmts"]])
     esc = o.get("escaped")
@@ -596,8 +639,10 @@ def encode_tx(c, o):
         esc_t = "(Some %s)" % cnat(int(m.group(1)) if m and int(m.group(1)) < 4999 else 4999)
     faults = "(mkfaults %s %s %s %s)" % (fault_term(c["begin"]["k"]), cnat(min(int(c["begin"].get("n", 0)), 4000)),
                                          fault_term(c["commit"]), fault_term(c["rollback"]))
-    return "CTx %s %s %s (mkbody %s %s) %s %s %s %s %s" % (
-        cbool(c.get("api", "transact").startswith("cached")), switches_term(c), faults, stmts, final_term(c["final"]),
+    ctxapi = c.get("api", "transact").endswith("ctx")
+    return "CTx %s %s %s %s %s (mkbody %s %s) %s %s %s %s %s" % (
+        cbool(c.get("api", "transact").startswith("cached")), switches_term(c),
+        CTX_TERM[c.get("cx", "live")] if ctxapi else "CLive", cbool(bool(c.get("bound")) and ctxapi), faults, stmts, final_term(c["final"]),
         err_term(o.get("err")), clist([call_term(s) for s in o.get("calls", [])]), esc_t,
         cnat(min(int(o.get("runs", 0)), 4000)), clist([cbool(x) for x in o.get("seen", [])]))
 
@@ -707,6 +752,8 @@ def bucket(case, obs):
             if st["fault"] != "none":
                 out.append("tx:stmt-fault=%s/%s" % (st["op"], st["fault"]))
         out.append("tx:runs=%s" % obs.get("runs"))
+        if case.get("api", "").endswith("ctx"):
+            out.append("tx:ctx=%s/%s" % (case.get("cx", "live"), "bound" if case.get("bound") else "plain"))
         calls = obs.get("calls", [])
         out.append("tx:terminal=" + ("commit" if any(c.startswith("commit") for c in calls) else
                                      "rollback" if any(c.startswith("rollback") for c in calls) else "none"))
